@@ -479,3 +479,107 @@ Proof.
   - intros [|]; vm_compute; discriminate.
   - vm_compute; discriminate.
 Qed.
+
+(* ==== what the code does at the edges of the table (all well-formed tables) ================= *)
+
+(* any local time at or after the local image of the LAST transition is mapped with the last
+   transition's record, whatever the flag: the repeated window before it included *)
+Lemma local_at_last tb L post : wf tb = true -> (1 <= nT tb)%nat ->
+  U tb (nT tb - 1) + O tb (nT tb - 1) <= L ->
+  fromLocalSeconds tb L post = L - O tb (nT tb - 1).
+Proof.
+  intros Hw Hn HL. unfold fromLocalSeconds.
+  pose proof (loc_mono tb Hw 0%nat (nT tb - 1)%nat ltac:(lia)) as Hm.
+  assert (Hj : upper_bound L (map (tloc tb) (trans tb)) = nT tb).
+  { apply cnt_loc_is; auto; [|lia].
+    intros k Hk. replace k with (nT tb - 1)%nat by lia. exact HL. }
+  rewrite (find_local_eval tb L post (nT tb)); [|lia|lia|exact Hj].
+  rewrite Nat.eqb_refl. reflexivity.
+Qed.
+
+(* before the local image of the FIRST transition: record 0, whatever the flag (a skipped local
+   time at the first transition included); in the repeated window of the first transition: the
+   first transition's record, whatever the flag *)
+Lemma local_at_first tb L post : wf tb = true -> (1 <= nT tb)%nat ->
+  (L < U tb 0 + O tb 0 -> fromLocalSeconds tb L post = L - off_of tb 0) /\
+  (U tb 0 + O tb 0 <= L < U tb 0 + OB tb 0 -> fromLocalSeconds tb L post = L - O tb 0).
+Proof.
+  intros Hw Hn. unfold fromLocalSeconds. split.
+  - intros HL. rewrite find_local_first by (right; exact HL). reflexivity.
+  - intros HL. destruct (Nat.eq_dec (nT tb) 1) as [E1|E1].
+    + pose proof (local_at_last tb L post Hw Hn) as H. unfold fromLocalSeconds in H.
+      rewrite E1 in H. cbn [Nat.sub] in H. apply H. lia.
+    + pose proof (wf_nth tb Hw 0%nat ltac:(lia)) as (W1 & W2 & W3 & W4).
+      assert (Hj : upper_bound L (map (tloc tb) (trans tb)) = 1%nat).
+      { apply cnt_loc_is; auto.
+        - intros k Hk. injection Hk as <-. lia.
+        - intros _. lia. }
+      rewrite (find_local_eval tb L post 1); [|lia|lia|exact Hj].
+      cbn [Nat.sub]. nat_if. z_if. cbn [Nat.eqb]. z_if; destruct post; reflexivity.
+Qed.
+
+(* ==== every local time is accounted for ====================================================== *)
+
+Lemma seg_is tb t s : wf tb = true -> (s <= nT tb)%nat ->
+  (forall k, s = S k -> U tb k <= t) -> ((s < nT tb)%nat -> t < U tb s) -> seg tb t = s.
+Proof.
+  intros Hw Hs Hlo Hhi. unfold seg. rewrite <- cnt_map.
+  pose proof (sorted_utc_map _ (wf_sorted _ Hw)) as Hsz.
+  pose proof (cnt_prefix t _ Hsz) as Hp. rewrite map_length in Hp. fold (nT tb) in Hp.
+  pose proof (cnt_le_length t (map tutc (trans tb))) as Hl. rewrite map_length in Hl. fold (nT tb) in Hl.
+  set (c := cnt t (map tutc (trans tb))) in *.
+  assert (H1 : (s <= c)%nat).
+  { destruct s as [|k]; [lia|]. specialize (Hp k ltac:(lia)). rewrite nth_map_tutc in Hp by lia.
+    apply Hp. apply Hlo. reflexivity. }
+  assert (H2 : (c <= s)%nat).
+  { destruct (Nat.lt_ge_cases s c) as [Hc|Hc]; [|exact Hc]. exfalso.
+    specialize (Hp s ltac:(lia)). rewrite nth_map_tutc in Hp by lia.
+    apply Hp in Hc. specialize (Hhi ltac:(lia)). lia. }
+  lia.
+Qed.
+
+(* a local time L is the local time of some instant, or it falls into the gap of exactly the
+   kind C20_local_skipped describes *)
+Lemma local_cover_from tb L : wf tb = true -> forall d k, (k + d = nT tb)%nat ->
+  (k = 0%nat \/ U tb (k - 1) + O tb (k - 1) <= L) ->
+  (exists t, t + offset_at tb t = L) \/
+  (exists j, (j < nT tb)%nat /\ U tb j + OB tb j <= L < U tb j + O tb j).
+Proof.
+  intros Hw. induction d as [|d IH]; intros k Hk Hprev.
+  - (* k = nT: the segment after the last transition *)
+    left. exists (L - OB tb k).
+    assert (Hs : seg tb (L - OB tb k) = k).
+    { apply seg_is; auto; [lia| |lia].
+      intros j Hj. subst k. cbn [OB]. destruct Hprev as [H|H]; [lia|].
+      replace (S j - 1)%nat with j in H by lia. lia. }
+    rewrite (offset_at_seg tb _ Hw), Hs. lia.
+  - destruct (Z_lt_ge_dec L (U tb k + OB tb k)) as [Hlt|Hge].
+    + left. exists (L - OB tb k).
+      assert (Hs : seg tb (L - OB tb k) = k).
+      { apply seg_is; auto; [lia| |intros _; lia].
+        intros j Hj. subst k. cbn [OB]. destruct Hprev as [H|H]; [lia|].
+        replace (S j - 1)%nat with j in H by lia. lia. }
+      rewrite (offset_at_seg tb _ Hw), Hs. lia.
+    + destruct (Z_lt_ge_dec L (U tb k + O tb k)) as [Hgap|Hnext].
+      * right. exists k. split; [lia|lia].
+      * apply (IH (S k)); [lia|]. right. replace (S k - 1)%nat with k by lia. lia.
+Qed.
+
+Lemma local_cover tb L : wf tb = true ->
+  (exists t, t + offset_at tb t = L) \/
+  (exists j, (j < nT tb)%nat /\ U tb j + OB tb j <= L < U tb j + O tb j).
+Proof. intros Hw. apply (local_cover_from tb L Hw (nT tb) 0%nat); [lia|left; reflexivity]. Qed.
+
+(* the recorded finding, exactly: for EVERY well-formed table and EVERY instant t in the repeated
+   window before its last transition, both flags return the later instant (never t) *)
+Lemma local_last_defect tb t : wf tb = true ->
+  let s := seg tb t in let L := t + offset_at tb t in
+  S s = nT tb -> U tb s + O tb s <= L ->
+  forall post, fromLocalSeconds tb L post = t + (OB tb s - O tb s) /\ t < t + (OB tb s - O tb s).
+Proof.
+  intros Hw s L Hs Hwin post.
+  pose proof (offset_at_seg tb t Hw) as Hoff. fold s in Hoff.
+  destruct (seg_bounds tb t Hw) as (_ & _ & Hhi). fold s in Hhi. specialize (Hhi ltac:(lia)).
+  assert (HL : L = t + OB tb s) by (unfold L; rewrite Hoff; reflexivity).
+  rewrite (local_at_last tb L post Hw ltac:(lia)); replace (nT tb - 1)%nat with s by lia; lia.
+Qed.
